@@ -20,6 +20,9 @@ package main
 //                                captured by the closure (with `go < 1.22` in go.mod one variable per LOOP: every
 //                                goroutine may see the last element)
 //   appGoModMinor                the minor version of the `go 1.N` directive of go.mod
+//   srvInvokeDecBeforeWrite      number of plain (not deferred) `atomic.AddInt32(&connSt.numInvoke, -1)` statements
+//                                in that closure that stand BEFORE its `connSt.conn.Write(…)` call (the counter
+//                                is released while the response is still to be written)
 //   srvRecvDrainChecks           comparisons `atomic.LoadInt32(&connSt.numInvoke) == 0` in recv (the
 //                                deferred drain-then-close)
 
@@ -256,6 +259,29 @@ func init() {
 				return false
 			})
 			add("srvInvokeDecDeferred", n, true)
+			var before int64
+			ast.Inspect(fd, func(x ast.Node) bool {
+				lit, ok := x.(*ast.FuncLit)
+				if !ok {
+					return true
+				}
+				var writePos token.Pos
+				ast.Inspect(lit.Body, func(y ast.Node) bool {
+					if c, ok := y.(*ast.CallExpr); ok && exprStr(h.fset, c.Fun) == "connSt.conn.Write" && writePos == 0 {
+						writePos = c.Pos()
+					}
+					return true
+				})
+				ast.Inspect(lit.Body, func(y ast.Node) bool {
+					if es, ok := y.(*ast.ExprStmt); ok && exprStr(h.fset, es.X) == "atomic.AddInt32(&connSt.numInvoke, -1)" &&
+						writePos != 0 && es.Pos() < writePos {
+						before++
+					}
+					return true
+				})
+				return false
+			})
+			add("srvInvokeDecBeforeWrite", before, true)
 		}
 		// the deferred drain in recv: `atomic.LoadInt32(&connSt.numInvoke) == 0`
 		if fd := h.funcDecl("tcpHandler.recv"); fd != nil {
